@@ -21,8 +21,10 @@ VARIANTS = [
 RULE = ("a case is a history over the dataset names a..d (+ core.Dataset, an unknown name) and the ids e1..e4: writes whose entities "
         "share ids across datasets and refer to each other across datasets (single and array references, 2 predicates that share a target, "
         "several versions per id in every dataset, dropped references, deleted versions), create / delete / rename (also onto existing names, of missing names, of core.Dataset) / re-create, garbage "
-        "collection with a raw key census before and after, restart, and a crash at one of the nine hook points inside "
-        "create/rename/delete followed by a restart; after most operations and at the end: dataset list, live dataset entities of "
+        "collection with a raw key census before and after, restart, a crash at one of the nine hook points inside "
+        "create/rename/delete followed by a restart, datasets created with publicNamespaces, dataset handles taken before a delete and "
+        "written through afterwards (after the delete, after the collection), paged relation queries whose continuation is kept and used "
+        "after datasets of its scope were deleted / renamed / collected (both directions); after most operations and at the end: dataset list, live dataset entities of "
         "core.Dataset, change feed and listing of every name, lookups and outgoing/incoming relation queries unscoped and scoped to "
         "live, deleted, renamed and mixed names; non-trivial = the history deletes or renames a dataset that holds data, or crashes "
         "inside a manager operation; distinct = distinct history JSON")
@@ -41,6 +43,11 @@ TRUSTED = [
     "write-time equality: the generated contents stay where every variant of IsEntityEqual agrees with full equality (C01/C02 cover the rest)",
 ]
 ASSUMPTIONS = [
+    "the dataset list is additionally required to show pairwise distinct internal dataset ids (checked on the driver's report by the "
+    "canonicaliser: a list with a shared id is an answer no model and no spec accepts)",
+    "continued pages of a paged query are checked for soundness only (every relation returned exists in a live dataset of the scope the "
+    "query started with); that the continuation still delivers everything is not claimed (on the pinned tree a continuation whose key "
+    "lies in a since-deleted dataset returns nothing more)",
     "sequential histories (one client); crashes only at the nine hook points of the dataset manager, each followed by a restart",
     "no user writes into core.Dataset; dataset entities are observed only as live / not live",
 ]
@@ -127,7 +134,43 @@ def witness_cases():
 
 
 def corpus_cases():
-    return []
+    """the four seeded changes of seeded/C07-1..4 as explicit histories"""
+    rd = lambda ids, names: [o for i in ids for o in (
+        {"op": "get", "id": U(i), "datasets": []},
+        {"op": "related", "starts": [U(i)], "pred": "*", "inverse": False, "datasets": []},
+        {"op": "related", "starts": [U(i)], "pred": "*", "inverse": True, "datasets": []})] + [
+        o for n in names for o in ({"op": "changes", "ds": n, "since": 0, "limit": 0}, {"op": "entities", "ds": n})] + [{"op": "names"}, {"op": "metas"}]
+    cs = []
+    # 1: die inside create after the record, restart, create ANOTHER dataset: fresh id, empty, shares nothing
+    cs.append({"ops": [{"op": "create", "ds": "a"}, crash("create", "c", 2), {"op": "create", "ds": "d"}, {"op": "names"},
+                       {"op": "batch", "ds": "d", "ents": [E("e1", "a", {"r1": "e2"}), E("e2")]}] + rd(["e1"], ["c", "d"])
+               + [{"op": "get", "id": U("e1"), "datasets": ["c"]}, {"op": "delete", "ds": "c"}] + rd(["e1"], ["c", "d"]) + [{"op": "gc"}]})
+    # 2: a dataset with publicNamespaces: delete, restart, re-create
+    cs.append({"ops": [{"op": "create", "ds": "a"}, {"op": "create", "ds": "b", "public": True},
+                       {"op": "batch", "ds": "a", "ents": [E("e1", "a", {"r1": "e2"}), E("e2")]},
+                       {"op": "batch", "ds": "b", "ents": [E("e1", "b", {"r2": "e3"}), E("e3", "a", {"r1": ["e2", "e1"]})]},
+                       {"op": "delete", "ds": "b"}] + rd(["e1", "e2"], ["a", "b"]) + [{"op": "restart"}] + rd(["e1", "e2"], ["a", "b"])
+               + [{"op": "create", "ds": "b"}] + rd(["e1"], ["b"]) + [{"op": "batch", "ds": "b", "ents": [E("e4")]}, {"op": "get", "id": U("e4"), "datasets": []},
+                  {"op": "gc"}]})
+    # 3: paged scoped queries whose continuation is used after a dataset of the scope was deleted (older keys in the doomed dataset)
+    for inv in (False, True):
+        cs.append({"ops": [{"op": "create", "ds": "a"}, {"op": "create", "ds": "b"},
+                           {"op": "batch", "ds": "b", "ents": [E("e1", "b", {"r2": ["e3", "e4"]}), E("e2", "b", {"r1": "e1"}), E("e3", "b", {"r1": "e1"})]},
+                           {"op": "batch", "ds": "a", "ents": [E("e1", "a", {"r1": "e2"}), E("e4", "a", {"r1": "e1"})]},
+                           {"op": "keep", "slot": "k1", "starts": [U("e1")], "pred": "*", "inverse": inv, "datasets": ["a", "b"], "limit": 1},
+                           {"op": "delete", "ds": "b"},
+                           {"op": "cont", "slot": "k1", "limit": 1},
+                           {"op": "related", "starts": [U("e1")], "pred": "*", "inverse": inv, "datasets": ["a", "b"]}]})
+    # 4: a write through a handle obtained before the delete, after delete / after gc; all read APIs, also after restart
+    cs.append({"ops": [{"op": "create", "ds": "a"}, {"op": "create", "ds": "b"},
+                       {"op": "batch", "ds": "a", "ents": [E("e1", "a", {"r1": "e2"}), E("e2")]},
+                       {"op": "batch", "ds": "b", "ents": [E("e1", "b", {"r2": "e3"})]},
+                       {"op": "hold", "ds": "b", "slot": "h1"}, {"op": "hold", "ds": "a", "slot": "h2"}, {"op": "delete", "ds": "b"},
+                       {"op": "stale", "slot": "h1", "ents": [E("e1", "c", {"r2": "e4"}), E("e3", "a", {"r1": "e1"})]}] + rd(["e1", "e3"], ["a", "b"])
+               + [{"op": "gc"}, {"op": "stale", "slot": "h1", "ents": [E("e1", "a", {"r1": "e3"}), E("e4", "a", {"r1": "e1"})]},
+                  {"op": "stale", "slot": "h2", "ents": [E("e2", "b")]}] + rd(["e1", "e3", "e4"], ["a", "b"])
+               + [{"op": "restart"}] + rd(["e1", "e3", "e4"], ["a", "b"]) + [{"op": "stale", "slot": "h1", "ents": [E("e2")]}, {"op": "gc"}]})
+    return cs
 
 
 def gen_ent(rng, i, known):
@@ -187,7 +230,9 @@ class Sim:
             self.rename(c["ds"], c.get("to"))
 
     def write(self, n, ents):
-        uid = self.names.get(n)
+        self.write_uid(self.names.get(n), ents)
+
+    def write_uid(self, uid, ents):
         if uid is None:
             return
         for e in ents:
@@ -247,13 +292,42 @@ def gen_reads(rng, known, few, sim):
 def gen_case(rng, nops, crashy):
     """Every dataset gets several versions per id, deleted versions, dropped references and both predicates between a pair;
     see Sim for the one restriction (which targets get incoming queries)."""
-    ops = [{"op": "create", "ds": "a"}, {"op": "create", "ds": "b"}]
+    ops = [{"op": "create", "ds": "a"}, {"op": "create", "ds": "b", "public": True} if rng.chance(1, 2) else {"op": "create", "ds": "b"}]
     known = set()
     sim = Sim()
     sim.create("a")
     sim.create("b")
+    held = {}      # slot -> uid of the dataset the handle was taken from (handles die with the process)
+    conts = {}     # slot -> (start, inverse) of a kept continuation
     for _ in range(nops):
         r = rng.below(100)
+        x = rng.below(100)
+        if x < 6:
+            n = rng.choice(NAMES[:3])
+            slot = rng.choice(["h1", "h2"])
+            ops.append({"op": "hold", "ds": n, "slot": slot})
+            if n in sim.names:
+                held[slot] = sim.names[n]
+        elif x < 14 and held:
+            slot = rng.choice(sorted(held))
+            ids = list(IDS)
+            rng.shuffle(ids)
+            ents = [gen_ent(rng, i, known) for i in ids[:rng.choice([1, 2])]]
+            ops.append({"op": "stale", "slot": slot, "ents": ents})
+            sim.write_uid(held[slot], ents)
+        elif x < 20 and known:
+            i = rng.choice(sorted(known))
+            inv = rng.chance(1, 2)
+            if not inv or sim.inverse_exact(i):
+                slot = rng.choice(["k1", "k2", "k3"])
+                sc = [rng.choice(NAMES[:3]) for _ in range(rng.choice([0, 1, 2, 2]))]
+                ops.append({"op": "keep", "slot": slot, "starts": [U(i)], "pred": "*", "inverse": inv, "datasets": sc, "limit": 1})
+                conts[slot] = (i, inv)
+        elif x < 27 and conts:
+            slot = rng.choice(sorted(conts))
+            i, inv = conts[slot]
+            if not inv or sim.inverse_exact(i):
+                ops.append({"op": "cont", "slot": slot, "limit": rng.choice([0, 1, 1])})
         if r < 40:
             n = rng.choice(NAMES[:3] if rng.chance(9, 10) else NAMES + ["zz"])
             ids = list(IDS)
@@ -263,7 +337,7 @@ def gen_case(rng, nops, crashy):
             sim.write(n, ents)
         elif r < 50:
             n = rng.choice(NAMES)
-            ops.append({"op": "create", "ds": n})
+            ops.append({"op": "create", "ds": n, "public": True} if rng.chance(1, 3) else {"op": "create", "ds": n})
             sim.create(n)
         elif r < 62:
             n = rng.choice(NAMES[:3] + ([CORE, "zz"] if rng.chance(1, 6) else []))
@@ -278,15 +352,23 @@ def gen_case(rng, nops, crashy):
             ops.append({"op": "gc"})
         elif r < 86:
             ops.append({"op": "restart"})
+            held = {}
         elif r < 86 + (10 if crashy else 0):
             mop = rng.choice(["create", "delete", "delete", "rename"])
             c = crash(mop, rng.choice(NAMES[:3]), rng.range(1, 3), rng.choice(NAMES) if mop == "rename" else None)
+            if mop == "create" and rng.chance(1, 3):
+                c["public"] = True
             ops.append(c)
             sim.crash(c)
+            held = {}
         else:
             ops += gen_reads(rng, known, True, sim)
         if rng.chance(1, 3):
             ops += gen_reads(rng, known, True, sim)
+    for slot in sorted(conts):
+        i, inv = conts[slot]
+        if not inv or sim.inverse_exact(i):
+            ops.append({"op": "cont", "slot": slot, "limit": 0})
     ops.append({"op": "gc"})
     ops += gen_reads(rng, known, False, sim)
     return {"ops": ops}
@@ -295,11 +377,6 @@ def gen_case(rng, nops, crashy):
 def gen(rng, tier):
     n = {"quick": 140, "thorough": 1500, "search": 250}[tier]
     return [gen_case(rng, rng.range(5, 12 if tier == "quick" else 18), i % 3 != 0) for i in range(n)]
-
-
-def run(binp, cases):
-    full = [{"datasets": [], "ops": c["ops"]} for c in cases]
-    return vlib.run_driver(binp, full, died_obs={"ops": [], "ns": {}})
 
 
 # ---------------------------------------------------------------- terms
@@ -343,9 +420,20 @@ def get_answer(op, oo, ns):
     return "(OGet %s false)" % vlib.coq_list(parts)
 
 
+SLOTS = {"h1": 1, "h2": 2, "k1": 11, "k2": 12, "k3": 13}
+
+
+def rel_term(oo, ns):
+    if oo.get("panic") or oo.get("err"):
+        return "None"
+    rel = [(CODES.ucode(sc.expand(r["pred"], ns)), CODES.ucode(sc.expand(r["id"], ns))) for pg in (oo.get("rpages") or []) for r in pg]
+    return "(Some %s)" % vlib.coq_list(["(%d, %d)" % x for x in rel])
+
+
 def term(c, o):
     ns = o.get("ns") or {}
     terms = []
+    kept = {}
     for i, op in enumerate(c["ops"]):
         oo = o["ops"][i] if i < len(o.get("ops", [])) else {"err": "missing"}
         k = op["op"]
@@ -369,8 +457,27 @@ def term(c, o):
             terms.append("CCrash %s %d%%nat" % (mop_term(op["mop"], op["ds"], op.get("to")), POINTS[op["mop"]].index(op["point"]) + 1))
         elif k in ("names", "metas"):
             q = "QNames" if k == "names" else "QMetas"
-            a = "OOther" if (oo.get("err") or bad) else "(ONames %s)" % zl(sorted(ncode(n) for n in oo.get("names") or []))
+            ids = oo.get("ids") or []
+            # spec on the implementation: no two listed datasets share an internal dataset id
+            shared = k == "names" and (len(set(ids)) != len(ids) or -1 in ids)
+            a = "OOther" if (oo.get("err") or bad or shared) else "(ONames %s)" % zl(sorted(ncode(n) for n in oo.get("names") or []))
             terms.append("CQuery %s %s" % (q, a))
+        elif k == "hold":
+            oc = 7 if bad else (1 if oo.get("err") == "no dataset" else 7 if oo.get("err") else 0)
+            terms.append("CHold %d %d %d" % (SLOTS[op["slot"]], ncode(op["ds"]), oc))
+        elif k == "stale":
+            lens = oo.get("lens") or [0] * len(op["ents"])
+            ents = vlib.coq_list([sc.ent_term(CODES, e, l) for e, l in zip(op["ents"], lens)])
+            oc = 7 if bad else (1 if oo.get("err") == "no handle" else 7 if oo.get("err") else 0)
+            terms.append("CStale %d %s %d" % (SLOTS[op["slot"]], ents, oc))
+        elif k == "keep":
+            q = (CODES.ucode(sc.expand(op["starts"][0])), "None" if op.get("pred", "*") == "*" else "(Some %d)" % CODES.ucode(sc.expand(op["pred"])),
+                 vlib.coq_bool(op.get("inverse", False)))
+            kept[op["slot"]] = q
+            terms.append("CKeep %d %d %s %s %s %s" % ((SLOTS[op["slot"]],) + q + (zl([ncode(d) for d in op.get("datasets", [])]), rel_term(oo, ns))))
+        elif k == "cont":
+            q = kept.get(op["slot"], (0, "None", "false"))
+            terms.append("CCont %d %d %s %s %s" % ((SLOTS[op["slot"]],) + q + (rel_term(oo, ns),)))
         elif k == "changes":
             q = "(QChanges %d %d %d %s)" % (ncode(op["ds"]), op.get("since", 0), op.get("limit", 0), vlib.coq_bool(op.get("latest", False)))
             if bad:
@@ -409,22 +516,54 @@ def term(c, o):
 
 def predict_text(c, o):
     body = "Definition c : tcase := %s.\n" % term(c, o)
-    body += "Eval vm_compute in (map (fun v => first_bad v hub0 c 0%N) variants, spec_ok c).\n"
+    body += "Eval vm_compute in (map (fun v => first_bad v hub0 aux0 c 0%N) variants, spec_ok c).\n"
     ok, out, _ = vlib.coq_eval("C07p", CHECK_MODULE.split(), body)
     return "first op index the model does not predict, per variant (current, del_atomic, reconcile, fixed); spec_ok: " + out.strip()
 
 
+_STASH = {}      # id(case) -> (case, obs)
+_EXPLAINED = {}  # id(case) -> some variant of the model predicts every observation of the case
+
+
+def run(binp, cases):
+    full = [{"datasets": [], "ops": c["ops"]} for c in cases]
+    obs = vlib.run_driver(binp, full, died_obs={"ops": [], "ns": {}})
+    for c, o in zip(cases, obs):
+        _STASH[id(c)] = (c, o)
+    return obs
+
+
+def _explain_all():
+    todo = [k for k in _STASH if k not in _EXPLAINED]
+    if not todo:
+        return
+    terms = [term(*_STASH[k]) for k in todo]
+    ev = vlib.coq_evaluate_cases("C07a", CHECK_MODULE, CASE_TYPE, terms, shard=SHARD)
+    bad_everywhere = set(ev[0])
+    for m in ev[1:len(VARIANTS)]:
+        bad_everywhere &= set(m)
+    for j, k in enumerate(todo):
+        _EXPLAINED[k] = j not in bad_everywhere
+
+
 def attribute(c, o):
-    """finding whose trigger the history contains: a crash inside a manager operation that was actually reached at a hook point
-    where the pinned step order leaves an inconsistent persisted state"""
+    """A spec failure is attributed to a recorded finding only if (a) the history reaches a hook point at which the pinned step
+    order leaves an inconsistent persisted state AND (b) some variant of the model - i.e. the recorded deviations and nothing
+    else - predicts every observation of the case; a case no variant predicts is an unexplained failing input."""
     f = None
     for op, oo in zip(c["ops"], o.get("ops", [])):
         if op["op"] == "crash" and oo.get("hit"):
             if op["point"] == "delete.afterRecord":
-                return "F07a"
+                f = "F07a"
+                break
             if op["point"] in ("create.afterRecord", "rename.afterMove", "rename.afterOldMeta", "delete.afterDeletedSet"):
                 f = f or "F19a"
-    return f
+    if f is None:
+        return None
+    if id(c) not in _STASH:
+        _STASH[id(c)] = (c, o)
+    _explain_all()
+    return f if _EXPLAINED.get(id(c)) else None
 
 
 def size(c):
